@@ -52,13 +52,16 @@ def build():
     # ---- append_slice
     b = fn_body(src, "append_slice", after=imp)
     one(r"^\s*if slice\.is_empty\(\) \{\s*return Ok\(\(\)\);\s*\}", b, "append_slice empty shortcut")
-    m = one(r"if let Some\(head\) = self\.head \{\s*if slice\.len\(\) (>=|>) " + LIM + r" - \(self\.len\(\) - head\) \{\s*return Err\(PushError::LongLabel\);\s*\}\s*"
+    m = one(r"if let Some\(head\) = self\.head \{\s*if self\.len\(\) - head - " + NUM + r" \+ slice\.len\(\) (>=|>) " + LIM + r" \{\s*return Err\(PushError::LongLabel\);\s*\}\s*"
             r"if self\.len\(\) \+ slice\.len\(\) (>=|>) " + LIM + r" \{\s*return Err\(PushError::LongName\);\s*\}\s*\} else \{", b, "append_slice in-label checks")
-    boo("asl_in_label_ge", ge(m.group(1))); nat("asl_in_label_lim", lim(m.group(2)))
-    boo("asl_in_total_ge", ge(m.group(3))); nat("asl_in_total_lim", lim(m.group(4)))
+    nat("asl_in_label_sub", num(m.group(1)))
+    boo("asl_in_label_ge", ge(m.group(2))); nat("asl_in_label_lim", lim(m.group(3)))
+    boo("asl_in_total_ge", ge(m.group(4))); nat("asl_in_total_lim", lim(m.group(5)))
     m = one(r"\} else \{\s*if slice\.len\(\) (>=|>) " + LIM + r" \{\s*return Err\(PushError::LongLabel\);\s*\}\s*"
             r"if self\.len\(\) \+ slice\.len\(\) (>=|>) " + LIM + r" \{\s*return Err\(PushError::LongName\);\s*\}\s*"
-            r"self\.head = Some\(self\.len\(\)\);\s*self\._append_slice\(&\[0\]\)\?;\s*\}\s*self\._append_slice\(slice\)\?;\s*Ok\(\(\)\)\s*$", b, "append_slice new-label branch")
+            r"let head = self\.len\(\);\s*let mut buf = \[" + NUM + r"u8; Label::MAX_LEN \+ 1\];\s*buf\[1\.\.=slice\.len\(\)\]\.copy_from_slice\(slice\);\s*"
+            r"self\._append_slice\(&buf\[\.\.=slice\.len\(\)\]\)\?;\s*self\.head = Some\(head\);\s*return Ok\(\(\)\);\s*\}\s*self\._append_slice\(slice\)\s*$", b, "append_slice new-label branch")
+    nn("asl_placeholder", num(m.group(5)))
     boo("asl_new_label_ge", ge(m.group(1))); nat("asl_new_label_lim", lim(m.group(2)))
     boo("asl_new_total_ge", ge(m.group(3))); nat("asl_new_total_lim", lim(m.group(4)))
 
@@ -94,7 +97,9 @@ def build():
     # ---- append_name
     b = fn_body(src, "append_name", after=imp)
     m = one(r"^\s*let head = self\.head(\.take\(\))?;\s*self\.end_label\(\);\s*if self\.len\(\) \+ usize::from\(name\.compose_len\(\)\) (>=|>) " + LIM + r" \{\s*self\.head = head;\s*return Err\(PushNameError::LongName\);\s*\}\s*"
-            r"for label in name\.iter_labels\(\) \{\s*label\s*\.compose\(&mut self\.builder\)\s*\.map_err\(\|_\| PushNameError::ShortBuf\)\?;\s*\}\s*Ok\(\(\)\)\s*$", b, "append_name")
+            r"let mut buf = Array::<" + NUM + r">::new\(\);\s*for label in name\.iter_labels\(\) \{\s*if label\.compose\(&mut buf\)\.is_err\(\) \{\s*self\.head = head;\s*return Err\(PushNameError::LongName\);\s*\}\s*\}\s*"
+            r"if self\.builder\.append_slice\(buf\.as_slice\(\)\)\.is_err\(\) \{\s*self\.head = head;\s*return Err\(PushNameError::ShortBuf\);\s*\}\s*Ok\(\(\)\)\s*$", b, "append_name")
+    nat("append_name_tmp_cap", num(m.group(4)))
     if m.group(1):
         raise GenError("append_name takes the head before end_label")
     boo("append_name_ge", ge(m.group(2))); nat("append_name_lim", lim(m.group(3)))
